@@ -31,6 +31,8 @@ def run(R):
         r6(R)
     if R.want("C19.R7"):
         r7(R)
+    if R.want("C19.R8"):
+        r8(R)
     if R.want("C19.P1"):
         p1(R)
     if R.want("C19.R2"):
@@ -121,6 +123,27 @@ def r7(R):
             R.violation("C19.R7", GEO, st.lineno, q, src(st)[:80], why + " - the positions the caller holds are silently replaced by the converted "
                         "ones, so the inverse conversion of the result no longer returns them and a second conversion of the same columns is shifted again")
     R.floor("C19.R7", 15)
+
+
+def r8(R):
+    """'independent of worker count and of restricting it to a region-of-interest mask', linearity, and equality of two reconstructions
+    of the same sinogram all need the filter of a call to be a function of that call's arguments.  A value returned by a memoised
+    function (functools.lru_cache / cache) is the same object for every caller; changing it in place (the window functions of
+    _get_fourier_filter do 'fourier_filter *= ...') changes what the next call gets."""
+    R.rule("C19.R8", "roi_iradon.py / geometry.py: no result of a function memoised with functools.lru_cache / cache is modified in place by "
+                     "its caller (x *= .., x[..] = .., x.sort())")
+    n = 0
+    for rel in ("ImageD11/sinograms/roi_iradon.py", GEO):
+        m = pyfacts.module(R, rel)
+        hits = pyfacts.memo_results_mutated(m)
+        n += 1
+        R.inst("C19.R8", "%s: memoised results are not modified in place" % rel, ok=not hits)
+        for fname, call, mut, q in hits:
+            R.violation("C19.R8", rel, mut.lineno, q, "%s; ...; %s" % (src(call)[:50], src(mut)[:50]),
+                        "%s is memoised, so every call with the same arguments returns the SAME array; '%s' changes that array in place: the k-th "
+                        "reconstruction is filtered with the window applied k times, a repeated call, another worker count, an ROI run or a "
+                        "linear combination no longer gives the same image" % (fname, src(mut)[:40]))
+    R.floor("C19.R8", 2)
 
 
 PAIRS = [
